@@ -405,6 +405,10 @@ def evaluate(case, chk):
             if rng.chance(0.5):
                 c["knobs"]["bufw"] = rng.choice([16, 64, 4096])
             cfgs.append(c)
+        if cfgs and not case.get("bulk"):
+            # one run per case with frequent preemption inside functions: the target writers run the same formatting
+            # code side by side
+            cfgs[-1]["sched"] = dict(cfgs[-1]["sched"], preempt=rng.choice([2, 3, 5, 10]))
         if case.get("bulk"):
             # keep each target's writer goroutine behind its producer
             writers = [g for g in pilot.goroutines if "file_output_handlers.go" in g]
